@@ -647,6 +647,12 @@ fn resolve_regions(
     }
     let mut resolved = Regions::default();
 
+    // A field of this very type (or of a type it embeds) may be waiting for the struct of its
+    // own vftable block, so that comes first.
+    if let Some(functions) = &vftable_functions {
+        vftable::generate_struct(semantic, resolvee_path, visibility, functions)?;
+    }
+
     // If any of the field types is not resolved yet, neither can this type be. Deferring here,
     // before anything is laid out, keeps the outcome independent of the resolution order:
     // with an unresolved first base we would otherwise assume there is no base vftable.
